@@ -1,7 +1,7 @@
 (* C08 - property theorems only (statements over the model in C08_Model).
    Domain: [wf_content] = rows match variants and samples, variant IDs unique;
    [wf_query] = the ID restriction is a set (duplicate-free). *)
-From HV Require Import Prelude C07_Model C07_Check C07_Proofs C08_Model C08_Check C08_Proofs.
+From HV Require Import Prelude C07_Model C07_Check C07_Proofs C08_Model C08_Check C08_Proofs C08_Proofs2.
 
 (* core: VCF.  A restricted read returns exactly the full read filtered in file
    order (rows by region overlap and ID membership, columns by sample membership),
@@ -207,3 +207,215 @@ Theorem C08_hypotheses_satisfiable :
   /\ selected_samples c_one q_noids <> [].
 Proof. exact read_hypotheses_satisfiable. Qed.
 Print Assumptions C08_hypotheses_satisfiable.
+
+(* ------------------------------------------------------------------------------------
+   The composite statement: a restricted read IS the model's subset() of the full read,
+   by the selected samples in file order and the selected IDs in file order - for any
+   file order of the records (sorted or not, a contig in one block or in several).
+   [wf_content] + unique sample names. *)
+
+(* subset() by the names a column mask keeps and by the IDs of any records of the object
+   returns exactly those columns and those records *)
+Theorem C08_subset_select :
+  forall g m (sel : list vrec),
+  wf_obj g -> (forall x, In x sel -> In x (combine (g_variants g) (g_rows g))) ->
+  subset g (Some (mask m (g_samples g))) (Some (map (fun x : vrec => v_id (fst x)) sel))
+  = Ok (mkg (mask m (g_samples g)) (map fst sel) (map (fun x : vrec => mask m (snd x)) sel)
+            [lenZ (mask m (g_samples g)); lenZ sel; nth 2 (g_shape g) 3]).
+Proof. exact subset_select. Qed.
+Print Assumptions C08_subset_select.
+
+Theorem C08_read_eq_full_then_subset_pgen :
+  forall pload c q chunk,
+  wf_content c -> NoDup (g_samples c) -> wf_query q -> chunk_dom chunk -> g_samples c <> [] ->
+  selected_samples c q <> [] ->
+  exists full, pgen_read_q pload false chunk c q_all = Ok full
+    /\ pgen_read_q pload false chunk c q
+       = subset full (Some (selected_samples full q)) (Some (sel_ids in_region_pgen q full)).
+Proof. exact read_eq_full_subset_pgen. Qed.
+Print Assumptions C08_read_eq_full_then_subset_pgen.
+
+(* VCF: the same, except that Genotypes.read replaces an array without cells by one of
+   shape (0, 0, 0) ([hollow_if_empty]) *)
+Theorem C08_read_eq_full_then_subset_vcf :
+  forall c q,
+  wf_content c -> NoDup (g_samples c) -> wf_query q -> g_samples c <> [] -> g_variants c <> [] ->
+  selected_samples c q <> [] ->
+  exists full r, vcf_read_q c q_all = Ok full
+    /\ subset full (Some (selected_samples full q)) (Some (sel_ids in_region_vcf q full)) = Ok r
+    /\ vcf_read_q c q = Ok (hollow_if_empty r).
+Proof. exact read_eq_full_subset_vcf. Qed.
+Print Assumptions C08_read_eq_full_then_subset_vcf.
+
+(* ------------------------------------------------------------------------------------
+   Sequences of subset() calls.  What is true: on an object with unique names, well-
+   shaped rows and a consistent shape, and for requests without repeated names, calling
+   subset() again and again (each call on the result of the previous one) equals ONE
+   subset() of the original object by the names the sequence leaves, in the order the
+   sequence leaves them: each request filtered to the names still present
+   ([final_names]); in particular the last request decides the order, whatever
+   re-orderings preceded it.  A request that repeats a known name leaves duplicate names
+   behind, and the next subset() by that kind of name raises ValueError. *)
+
+Theorem C08_subset_of_subset :
+  forall g l1 v1 l2 v2 g1,
+  length (g_rows g) = length (g_variants g) ->
+  subset g (Some l1) (Some v1) = Ok g1 ->
+  nodupb (g_samples g1) = true -> nodupb (map v_id (g_variants g1)) = true ->
+  subset g1 (Some l2) (Some v2)
+  = subset g (Some (filter (fun x => memZ x l1) l2)) (Some (filter (fun x => memZ x v1) v2)).
+Proof. exact subset_subset_some. Qed.
+Print Assumptions C08_subset_of_subset.
+
+(* no request = a request for every name in the object's order *)
+Theorem C08_subset_norm :
+  forall g S V, wf_obj g ->
+  subset g S V = subset g (Some (norm_req S (g_samples g))) (Some (norm_req V (map v_id (g_variants g)))).
+Proof. exact subset_norm. Qed.
+Print Assumptions C08_subset_norm.
+
+Theorem C08_subset_preserves_wf :
+  forall g S V g1, wf_obj g -> req_nodup S -> req_nodup V -> subset g S V = Ok g1 ->
+  wf_obj g1 /\ shape_ok g1
+  /\ g_samples g1 = step_names (g_samples g) S
+  /\ map v_id (g_variants g1) = step_names (map v_id (g_variants g)) V.
+Proof. exact subset_wf. Qed.
+Print Assumptions C08_subset_preserves_wf.
+
+Theorem C08_subset_seq_one :
+  forall reqs g, wf_obj g -> shape_ok g -> Forall req_ok reqs ->
+  subset_seq g reqs
+  = subset g (Some (final_names (g_samples g) (map fst reqs)))
+             (Some (final_names (map v_id (g_variants g)) (map snd reqs))).
+Proof. exact subset_seq_one. Qed.
+Print Assumptions C08_subset_seq_one.
+
+Theorem C08_subset_after_repeats :
+  forall g S V g1 S2 V2,
+  subset g (Some S) V = Ok g1 -> nodupb (filter (fun s => memZ s (g_samples g)) S) = false ->
+  subset g1 (Some S2) V2 = Err E_Value.
+Proof. exact subset_after_repeats. Qed.
+Print Assumptions C08_subset_after_repeats.
+
+Theorem C08_subset_after_repeats_ids :
+  forall g S V g1 S2 V2,
+  subset g S (Some V) = Ok g1 -> nodupb (g_samples g1) = true ->
+  nodupb (filter (fun v => memZ v (map v_id (g_variants g))) V) = false ->
+  subset g1 S2 (Some V2) = Err E_Value.
+Proof. exact subset_after_repeats_ids. Qed.
+Print Assumptions C08_subset_after_repeats_ids.
+
+(* the hypotheses are satisfiable; a kept re-ordering followed by a subset *)
+Theorem C08_subset_seq_example :
+  wf_obj g_two /\ shape_ok g_two
+  /\ subset_seq g_two [(Some [1; 0], None); (Some [0], None)]
+     = Ok (mkg [0] [mkvar 1 2 29 [3; 4] 1] [[(0, 1, 1)]] [1; 1; 3]).
+Proof. exact subset_seq_example. Qed.
+Print Assumptions C08_subset_seq_example.
+
+(* ------------------------------------------------------------------------------------
+   subset() as the implementation runs it ([subset_impl], what the [seq] relation
+   compares with): on an object with cells it is [subset]; on the object a read that
+   matched nothing leaves behind (array of shape (0, 0, 0) beside the samples found) the
+   tree as it is raises IndexError once a requested name is known; with the repair
+   (fixes/C08_subset_after_empty_read.patch; model flag [true]) it never raises and
+   returns the requested names. *)
+
+Theorem C08_subset_impl_cells :
+  forall fixed g S V, no_cells g = false -> subset_impl fixed g S V = subset g S V.
+Proof. exact subset_impl_cells. Qed.
+Print Assumptions C08_subset_impl_cells.
+
+Theorem C08_subset_impl_order :
+  forall fixed g S V g', subset_impl fixed g S V = Ok g' ->
+  g_samples g' = match S with
+                 | None => g_samples g
+                 | Some S' => filter (fun s => memZ s (g_samples g)) S' end
+  /\ map v_id (g_variants g') = match V with
+                                | None => map v_id (g_variants g)
+                                | Some V' => filter (fun v => memZ v (map v_id (g_variants g))) V' end.
+Proof. exact subset_impl_order. Qed.
+Print Assumptions C08_subset_impl_order.
+
+Theorem C08_subset_impl_total :
+  forall g S V, nodupb (g_samples g) = true -> nodupb (map v_id (g_variants g)) = true ->
+  exists g', subset_impl true g S V = Ok g'.
+Proof. exact subset_impl_total. Qed.
+Print Assumptions C08_subset_impl_total.
+
+Theorem C08_subset_after_empty_read_refuted :
+  vcf_read_q c_one q_noids = Ok g_hollow
+  /\ subset_impl false g_hollow (Some [0]) None = Err E_Index
+  /\ subset_impl true g_hollow (Some [0]) None = Ok g_hollow
+  /\ subset_impl false g_hollow (Some [7]) (Some [1]) = Ok (mkg [] [] [] [0; 0; 0]).
+Proof. exact subset_after_empty_read_refuted. Qed.
+Print Assumptions C08_subset_after_empty_read_refuted.
+
+(* ------------------------------------------------------------------------------------
+   A sample restriction that selects nobody.  The tree as it is raises (cyvcf2:
+   AttributeError, pgenlib: RuntimeError) - model flag [false], which is why the theorems
+   above assume [selected_samples c q <> []].  With the repair
+   (fixes/C08_empty_sample_selection.patch; model flag [true]) the closed forms hold for
+   EVERY sample restriction: nobody selected = the selected variants without any sample. *)
+
+Theorem C08_vcf_read_x_spec :
+  forall c q, wf_content c -> wf_query q ->
+  let m := keep_mask (q_samples q) (g_samples c) in
+  let samples' := mask m (g_samples c) in
+  let sel := select in_region_vcf q (combine (g_variants c) (g_rows c)) in
+  vcf_read_x true c q = Ok (vcf_result m samples' (take_q q sel))
+  /\ vcf_iter_x true c q = Ok (samples', map (fun r : vrec => (fst r, mask m (snd r))) sel).
+Proof. exact vcf_read_x_spec. Qed.
+Print Assumptions C08_vcf_read_x_spec.
+
+Theorem C08_pgen_read_x_spec :
+  forall pload c q chunk, wf_content c -> wf_query q -> chunk_dom chunk ->
+  let m := keep_mask (q_samples q) (g_samples c) in
+  let samples' := mask m (g_samples c) in
+  let sel := select in_region_pgen q (combine (g_variants c) (g_rows c)) in
+  pgen_read_x pload true chunk c q = Ok (pgen_result pload m samples' (take_q q sel))
+  /\ pgen_iter_x pload true c q
+     = Ok (samples', map (fun r : vrec => (fst r, map (load_call pload) (to_stored (mask m (snd r))))) sel).
+Proof. exact pgen_read_x_spec. Qed.
+Print Assumptions C08_pgen_read_x_spec.
+
+Theorem C08_empty_sample_selection_refuted :
+  vcf_read_x false c_one q_nobody = Err E_Attribute
+  /\ pgen_read_x pload_std false None c_one q_nobody = Err E_Runtime
+  /\ vcf_read_x true c_one q_nobody = Ok (mkg [] [mkvar 1 2 29 [3; 4] 1] [] [0; 0; 0])
+  /\ pgen_read_x pload_std true None c_one q_nobody = Ok (mkg [] [mkvar 1 2 29 [3; 4] 1] [[]] [0; 1; 3]).
+Proof. exact empty_sample_selection_refuted. Qed.
+Print Assumptions C08_empty_sample_selection_refuted.
+
+(* soundness of the checkers of the [seq] relation (read, read+subset, sequence of subsets) *)
+Theorem C08_holds_step_sound :
+  forall strict s b,
+  holds_step strict s = true -> ss_before s = Ok b -> hollow b = false \/ strict = true ->
+  subset_dom b = true ->
+  exists g', ss_obs s = Ok g'
+    /\ g_samples g' = match ss_S s with
+                      | None => g_samples b
+                      | Some S' => filter (fun x => memZ x (g_samples b)) S' end
+    /\ map v_id (g_variants g') = match ss_V s with
+                      | None => map v_id (g_variants b)
+                      | Some V' => filter (fun v => memZ v (map v_id (g_variants b))) V' end.
+Proof. exact holds_step_sound. Qed.
+Print Assumptions C08_holds_step_sound.
+
+Theorem C08_holds_seq_sound :
+  forall k full,
+  holds_seq k = true -> qc_full k = Ok full ->
+  let q := qc_q k in
+  let m := keep_mask (q_samples q) (g_samples full) in
+  mask m (g_samples full) <> [] ->
+  Forall (fun s => holds_step (qc_strict_nocells k) s = true) (qc_steps k)
+  /\ exists rd, qc_read k = Ok rd
+     /\ g_samples rd = mask m (g_samples full)
+     /\ g_variants rd = map fst (expected q full rd)
+     /\ (expected q full rd <> [] -> g_rows rd = map (fun x : vrec => mask m (snd x)) (expected q full rd))
+     /\ (expected q full rd = [] -> g_rows rd = [] /\ qc_warned k = true)
+     /\ (hollow full = false \/ qc_strict_nocells k = true ->
+         exists cp, qc_comp k = Some (Ok cp) /\ g_samples cp = g_samples rd
+                    /\ g_variants cp = g_variants rd /\ g_rows cp = g_rows rd).
+Proof. exact holds_seq_sound. Qed.
+Print Assumptions C08_holds_seq_sound.
